@@ -29,7 +29,9 @@ def run_chunk(args):
         cls, cfg = job["cls"], job["cfg"]
         hist = job.get("hist")
         if hist is None:
-            hist = (L.gen_combine_history if job.get("combine") else L.gen_struct_history if job.get("struct") else L.gen_history)(rng, job["len"], **job.get("gen", {}))
+            gen = L.gen_combine_history if job.get("combine") else L.gen_struct_history if job.get("struct") else \
+                L.gen_directed if job.get("gen", {}).get("shape") else L.gen_history
+            hist = gen(rng, job["len"], **job.get("gen", {}))
         res["hist"] += 1
         res["clsdist"][cls] = res["clsdist"].get(cls, 0) + 1
         lb = (len(hist) // 10) * 10
